@@ -97,8 +97,8 @@ PROPS = {
         explanation='Proved (Verus, all strings, all seven types): builder_with_combined_name splits at last_index_of / first_index_of, combined_name joins; lemma_c18_roundtrip derives the '
                     'round trip from proved split/join lemmas. A bounded cross-check on the compiled code accompanies the proof.',
         trusted=['std rsplit_once / split_once contracts (A: bounded replay)']),
-    'C19': dict(level='other', groups=['qual', 'inverse', 'fmt'], kani=[], bounded=['eq', 'tokens:C19', 'scale:C19', 'preds'] + A,
-        explanation='Proved (Verus): QualifierKey comparisons are total and coincide with structural equality on stored keys; lemma_canon_injective: two normalised values with the same canonical string have the same type text and the same field texts (from the inverse theorem, group inverse). Derived Eq/Hash/Ord are assumed consistent (compiler). '
+    'C19': dict(level='proof', groups=['qual', 'inverse', 'fmt', 'c01'], kani=[], bounded=['eq', 'tokens:C19', 'scale:C19', 'preds'] + A,
+        explanation='THEOREM (group inverse, theorem_c19_injective): two handed-out values -- ANY namespace, version and subpath texts, a non-empty name, the qualifier invariant, a valid type text -- with the same canon_spec have the same type text and the same field texts (type, name, version and qualifier pairs through the parser phases, namespace and subpath through the raw right-to-left splits and dec(enc(x)) == x); conversely equal texts give equal strings (lemma_canon_congr, group c01). With Display::fmt == canon_spec this is "equal exactly when the canonical strings are equal" for the derived ==, which compares the type and the field texts. Assumed (compiler / std): derive(PartialEq, Eq, Hash, PartialOrd, Ord) are the field-wise, lexicographic implementations; String / SmartString compare and hash by their text. Pieces: Proved (Verus): QualifierKey comparisons are total and coincide with structural equality on stored keys; lemma_canon_injective: two normalised values with the same canonical string have the same type text and the same field texts (from the inverse theorem, group inverse). Derived Eq/Hash/Ord are assumed consistent (compiler). '
                     'BOUNDED: values that are not normalised (builder-made namespaces with empty segments etc.) and the end-to-end statement on the compiled code: all pairs of a near-collision corpus, parsed and built, String and PackageType.'),
 }
 
